@@ -65,6 +65,7 @@ def _script(case):
         "env = jinja2.Environment(loader=jinja2.DictLoader(src))\n"
         "env.globals.update(env_globals)\n"
         "h = env.get_template('h', globals=h_globals)\n"
+        + ("str(h.module)  # default module cached before the render\n" if f.get("target") == "lit-warm" else "") +
         "def bind(v):\n"
         "    if isinstance(v, tuple) and v[0] == '$get':\n"
         "        return env.get_template(v[1], globals=v[2])\n"
@@ -100,7 +101,7 @@ def classify(case, got, exp):
         return SIG_BUFFERED
     if got == ("exc", "KeyError") and f["hglob"] and "impas" in f["shape"] and fam != "mod":
         shared = (fam == "inc" and f["ctx"] in (None, "with")) or (fam in ("imp", "from") and f["ctx"] == "with")
-        if shared and f["target"] in ("lit", "list", "var", "varlist", "obj", "fs"):
+        if shared and f["target"] in ("lit", "lit-warm", "list", "var", "varlist", "obj", "fs"):
             # helper with template globals, run on a shared context, doing a default import of its own
             return SIG_KEYERROR
     kind = fam if fam == "mod" else f"{fam}/{f['ctx'] or 'default'}/{f['placement']}"
